@@ -211,7 +211,8 @@ func C13scan(p *load.Program, run *report.Run) {
 	run.Rule("scan-default-continues-the-scan", "a descending scan `for i := H; i > L; i-- { if test(i) { return i+k } }; return D` (or with >=) has D equal to the answer of the first position it does not test; checked in circuit, types and the root package, with built-in examples")
 	lints.ScanDefault(p, run, []string{"circuit", "types", ""})
 	run.Floor("scan-examples", 3)
-	run.Floor("descending-scans", 1)
+	// no floor on the sites: a scan may legitimately be replaced by math/bits; the rule is kept alive by its
+	// built-in examples (scan-examples)
 	run.Rule("write-window-equals-advance", "in circuit/ioarg.go, a SetBit(result, ofs+i, ...) in `for i := 0; i < B` (or a single SetBit at ofs) of a function returning `ofs + A` has B = A up to integer conversions")
 	lints.WriteWindow(p, run, []string{"circuit"}, nil)
 	run.Floor("packed-member-writes", 2)
